@@ -40,7 +40,8 @@ REQUIRED_MONITORS = ["F-matches-own-geometry", "DF-matches-own-geometry", "invF-
                      "facetbasis-normals-dx"]
 REQUIRED_REACH = ["per-cell-layout", "tind-none", "tind-permuted", "tind-repeated", "curved-mesh", "mirrored-mesh",
                   "interior-facets", "newton-inverse-nontrivial", "affine-flag-flipped", "many-points-per-cell", "same-points-other-subset",
-                  "mesh-in-small-units", "empty-subset", "closed-cell-points", "oriented-facet-set"]
+                  "mesh-in-small-units", "empty-subset", "closed-cell-points", "oriented-facet-set", "per-facet-points",
+                  "mapping-built-for-a-cell-subset"]
 
 
 class OwnGeom:
@@ -352,6 +353,20 @@ def facet_maps(ctx, k, kind):
     Xb, Wb = ref_facet_rule(brd, d)
     straight_facets = mc.straight and (kind != "hex" or mc.planar_faces)
     hscale = float(np.abs(np.asarray(mesh.p)).max()) + 1e-300
+    # per-facet points (dim-1, nfacets, npts): each facet's own points give what the shared-points call gives for them
+    if d > 1:
+        fs = sel[:min(sel.size, 4)].astype(np.int32)
+        Xpf = np.stack([Xb[:, rng.permutation(Xb.shape[1])[:3]] for _ in fs], axis=1)        # (d-1, nf, 3)
+        try:
+            xpf, dpf = mapping.G(Xpf, fs), mapping.detDG(Xpf, fs)
+            for j_, f_ in enumerate(fs):
+                ctx.close("subset-spellings-agree", xpf[:, j_], mapping.G(Xpf[:, j_], np.array([f_]))[:, 0], rtol=1e-13, scale=hscale,
+                          mech=f"G-per-facet-points:{mname}", mesh=cname, facet=int(f_))
+                ctx.close("subset-spellings-agree", dpf[j_], mapping.detDG(Xpf[:, j_], np.array([f_]))[0], rtol=1e-12,
+                          scale=float(np.abs(dpf).max()) + 1e-300, mech=f"detDG-per-facet-points:{mname}", mesh=cname, facet=int(f_))
+            ctx.reached("per-facet-points")
+        except Exception as e:
+            ctx.check("subset-spellings-agree", False, mech=f"G-per-facet-points-raises:{mname}", error=repr(e)[:200], mesh=cname)
     for sname, find, facets in spellings:
         tag = dict(mesh=cname, mapping=mname, geom=geom, find=sname, desc=mc.desc)
         x = mapping.G(Xb, find)            # (dim, nfacets, nq)
@@ -568,6 +583,21 @@ def affine_vs_iso(ctx, k, kind):
     if mesh.t.shape[1] > ctx.scale(60, 200):
         raise Skip("mesh-too-large")
     aff = MappingAffine(mesh)
+    nt_all = int(mesh.t.shape[1])
+    # a mapping built for a subset of the cells (MappingAffine(mesh, tind=S)) is the whole mapping taken at S
+    if nt_all >= 3:
+        S_ = rng.permutation(nt_all)[:3].astype(np.int32)
+        S_[-1] = S_[0]
+        affS = MappingAffine(mesh, tind=S_)
+        Xs_ = GEO.random_ref_points(rng, kind, 3)
+        for meth in ("F", "DF", "invDF", "detDF"):
+            ctx.close("subset-spellings-agree", getattr(affS, meth)(Xs_), getattr(aff, meth)(Xs_, S_), rtol=1e-13,
+                      scale=float(np.abs(getattr(aff, meth)(Xs_, S_)).max()) + 1e-300, mech=f"mapping-built-for-a-cell-subset:{meth}",
+                      mesh=type(mesh).__name__)
+        xS = aff.F(Xs_, S_)
+        ctx.close("subset-spellings-agree", affS.invF(xS), aff.invF(xS, S_), rtol=1e-12, scale=1.0,
+                  mech="mapping-built-for-a-cell-subset:invF", mesh=type(mesh).__name__)
+        ctx.reached("mapping-built-for-a-cell-subset")
     iso = MappingIsoparametric(mesh, mesh.elem(), mesh.bndelem)
     # the affine flag flipped with dataclasses.replace gives the other implementation through mesh.mapping()
     from dataclasses import replace
